@@ -34,6 +34,8 @@
 #include <sys/mman.h>
 #include <sys/wait.h>
 #include <sys/resource.h>
+#include <sys/time.h>
+#include <signal.h>
 #include <cstdarg>
 #include "msc.h"
 
@@ -401,6 +403,26 @@ static std::string listing_of(CodeHolder& code) {
   (void)code; return std::string();
 }
 
+// ---- CPU-time watchdog for code that may loop forever: reports the failure in the driver's protocol and exits ----
+static char g_wd_key[96], g_wd_msg[3072];
+static void watchdog_handler(int) {
+  const vh::Opts& o = vh::g_opts;
+  char buf[4096];
+  int n;
+  if (!o.replay.empty()) n = snprintf(buf, sizeof buf, "REPLAY-FAIL key=%s msg=%s\n", g_wd_key, g_wd_msg);
+  else n = snprintf(buf, sizeof buf, "FAIL key=%s replay=%s/w%d.current msg=%s\n", g_wd_key, o.out_dir.c_str(), o.worker, g_wd_msg);
+  if (n > 0) { ssize_t w = write(1, buf, size_t(std::min<int>(n, int(sizeof buf) - 1))); (void)w; }
+  _exit(1);
+}
+static void watchdog_arm(const std::string& key, const std::string& msg) {
+  snprintf(g_wd_key, sizeof g_wd_key, "%s", key.c_str());
+  snprintf(g_wd_msg, sizeof g_wd_msg, "%s", msg.c_str());
+  for (char* q = g_wd_msg; *q; q++) if (*q == '\n') *q = ' ';
+  struct sigaction sa; memset(&sa, 0, sizeof sa); sa.sa_handler = watchdog_handler; sigaction(SIGVTALRM, &sa, nullptr);
+  struct itimerval it; memset(&it, 0, sizeof it); it.it_value.tv_sec = 3; setitimer(ITIMER_VIRTUAL, &it, nullptr);
+}
+static void watchdog_disarm() { struct itimerval it; memset(&it, 0, sizeof it); setitimer(ITIMER_VIRTUAL, &it, nullptr); }
+
 // Dedicated probes (cfg = [99, k]) for finding classes whose symptom kills the process (assertion / UBSan abort): a fixed ordinary
 // case is run in a forked child with an empty known-list; any abnormal end of the child reports the probe's key.
 static void run_case(const vh::Case& c, vh::Ctx& ctx);
@@ -414,6 +436,12 @@ static std::vector<Probe> make_probes() {
     p.what = "sysv64 f(long a0..a6): a0 rdi -> rsi, a1 rsi -> xmm7 (GP -> vector register move, documented as unsupported), a6 [stack] -> rdi: the swap test in "
              "emit_args_assignment compares register ids across groups (xmm7 vs rdi = id 7), exchanges rdi/rsi, marks a1 done and never rejects it";
     p.c.cfg = {0, 0, 0, 0, 1, 0}; p.c.ops = {{6, 1, 1, 0, 0}, {6, 3, 7, 1, 0}, {6, 0, 0, 0, 0}, {6, 0, 0, 0, 0}, {6, 0, 0, 0, 0}, {6, 0, 0, 0, 0}, {6, 1, 0, 0, 0}}; v.push_back(p); }
+  { Probe p; p.key = "argsassign-hang:a64";
+    p.what = "aapcs64, 18 arguments, local stack alignment 32 (dynamic alignment, no frame pointer), destinations permuted among x0..x9: emit_args_assignment loops forever";
+    p.c.cfg = {2, 0, 18, 2, 51758, 15};
+    p.c.ops = {{10,1,4,1,0},{2,1,1,0,0},{8,1,0,2,0},{9,1,5,2,54},{3,1,2,0,13},{6,2,4,3,29},{2,1,1,0,46},{11,1,3,1,0},{7,1,6,0,22},{6,1,5,2,7},{12,1,7,3,54},{0,1,1,2,0},
+               {12,1,6,0,54},{14,1,6,2,0},{11,1,3,1,63},{10,1,2,0,30},{8,1,0,2,4},{3,1,6,0,37}};
+    v.push_back(p); }
   return v;
 }
 static void run_probe(size_t k, vh::Ctx& ctx) {
@@ -423,7 +451,7 @@ static void run_probe(size_t k, vh::Ctx& ctx) {
   fflush(nullptr);
   pid_t pid = fork();
   if (pid == 0) {
-    int dn = open("/dev/null", O_WRONLY); if (dn >= 0) dup2(dn, 2);
+    int dn = open("/dev/null", O_WRONLY); if (dn >= 0) { dup2(dn, 2); dup2(dn, 1); }
     alarm(300);
     vh::Opts o; vh::Ctx cx; cx.opts = &o;
     int rc = 0;
@@ -435,7 +463,7 @@ static void run_probe(size_t k, vh::Ctx& ctx) {
   ctx.cls(fmt("probe:%s", pr.key));
   if (WIFEXITED(status) && WEXITSTATUS(status) == 0) return;
   std::string how = WIFSIGNALED(status) ? fmt("killed by signal %d (6 = assertion)", WTERMSIG(status))
-                                        : fmt("exit code %d (98 = UBSan report, 99 = ASan report, 7 = harness failure e.g. wrong value)", WEXITSTATUS(status));
+                                        : fmt("exit code %d (98 = UBSan report, 99 = ASan report, 7 = harness failure e.g. wrong value, 1 = CPU-time watchdog (endless loop) or a sanitizer report without exitcode option)", WEXITSTATUS(status));
   ctx.fail_unless_known(pr.key, fmt("%s: child %s", pr.what, how.c_str()));
 }
 
@@ -521,34 +549,14 @@ static void run_case(const vh::Case& c, vh::Ctx& ctx) {
 
   if (p.target != T_X64) {
     // Non-host targets: nothing is executed; the three emit calls must return (kOk or an error) without assertion, sanitizer report
-    // or hang. Run in a forked child with an alarm so that a hang or an abort becomes a judged result instead of killing the worker.
-    fflush(nullptr);
-    pid_t pid = fork();
-    if (pid == 0) {
-      int dn = open("/dev/null", O_WRONLY); if (dn >= 0) dup2(dn, 2);
-      // CPU-time limit (robust against a loaded machine): an endless loop burns CPU and gets SIGXCPU; the wall-clock alarm is only a backstop
-      struct rlimit rl; rl.rlim_cur = 3; rl.rlim_max = 4; setrlimit(RLIMIT_CPU, &rl);
-      alarm(300);
-      Error e1, e2, e3;
-      if (p.target == T_A64) { a64::Assembler a(&code); e1 = a.emit_prolog(frame); e2 = a.emit_args_assignment(frame, args); e3 = a.emit_epilog(frame); }
-      else { x86::Assembler a(&code); e1 = a.emit_prolog(frame); e2 = a.emit_args_assignment(frame, args); e3 = a.emit_epilog(frame); }
-      _exit(e2 != Error::kOk ? 20 : (e1 != Error::kOk || e3 != Error::kOk) ? 21 : 0);
-    }
-    int status = 0;
-    if (pid < 0 || waitpid(pid, &status, 0) < 0) { ctx.cls("nonhost-fork-failed"); return; }
-    if (WIFSIGNALED(status) && WTERMSIG(status) == SIGALRM) { ctx.cls("nonhost-child-wallclock-timeout(not judged)"); return; }
-    if (WIFSIGNALED(status) && (WTERMSIG(status) == SIGXCPU || WTERMSIG(status) == SIGKILL)) {
-      ctx.fail_unless_known(fmt("argsassign-hang:%s", p.target == T_A64 ? "a64" : "x86-32"),
-        fmt("emit_prolog/emit_args_assignment/emit_epilog did not return within 3 s of CPU time (endless loop) :: %s", describe(p).c_str()));
-      return;
-    }
-    if (WIFSIGNALED(status) || (WEXITSTATUS(status) != 0 && WEXITSTATUS(status) != 20 && WEXITSTATUS(status) != 21)) {
-      ctx.fail_unless_known(fmt("argsassign-crash:%s", p.target == T_A64 ? "a64" : "x86-32"),
-        fmt("emit_args_assignment aborted (%s %d; 98 = UBSan, 99 = ASan, signal 6 = assertion) :: %s", WIFSIGNALED(status) ? "signal" : "exit code",
-            WIFSIGNALED(status) ? WTERMSIG(status) : WEXITSTATUS(status), describe(p).c_str()));
-      return;
-    }
-    ctx.cls(fmt("%s-build-%s", p.target == T_A64 ? "a64" : "x86-32", WEXITSTATUS(status) == 0 ? "ok" : WEXITSTATUS(status) == 20 ? "argsassign-clean-error" : "clean-error"));
+    // or hang. An endless loop is caught by a CPU-time watchdog (ITIMER_VIRTUAL, robust on a loaded machine) that reports and exits.
+    watchdog_arm(fmt("argsassign-hang:%s", p.target == T_A64 ? "a64" : "x86-32"),
+                 fmt("emit_prolog/emit_args_assignment/emit_epilog did not return within 3 s of CPU time (endless loop) :: %s", describe(p).c_str()));
+    Error e1, e2, e3;
+    if (p.target == T_A64) { a64::Assembler a(&code); e1 = a.emit_prolog(frame); e2 = a.emit_args_assignment(frame, args); e3 = a.emit_epilog(frame); }
+    else { x86::Assembler a(&code); e1 = a.emit_prolog(frame); e2 = a.emit_args_assignment(frame, args); e3 = a.emit_epilog(frame); }
+    watchdog_disarm();
+    ctx.cls(fmt("%s-build-%s", p.target == T_A64 ? "a64" : "x86-32", e2 != Error::kOk ? "argsassign-clean-error" : (e1 != Error::kOk || e3 != Error::kOk) ? "clean-error" : "ok"));
     if (has_cycle || has_stack_src) ctx.nontrivial();
     return;
   }
@@ -737,9 +745,9 @@ static void run_case(const vh::Case& c, vh::Ctx& ctx) {
 void vh_run(const vh::Case& c, vh::Ctx& ctx) { run_case(c, ctx); }
 
 bool vh_enum(const vh::Opts& o, uint64_t k, vh::Case& out) {
-  if (o.worker != 0 || k >= 3) return false;
+  if (o.worker != 0 || k >= 4) return false;
   out = vh::Case();
-  if (k < 2) { out.cfg = {99, int64_t(k)}; return true; }
+  if (k < 3) { out.cfg = {99, int64_t(k)}; return true; }
   // sysv64 f(long a, long b, long c): a rdi -> rdx, b rsi -> rdi, c rdx -> rsi (3-cycle); cfg[5] == 77: never opened by the exclusion
   out.cfg = {0, 0, 0, 0, 1, 77};
   out.ops = {{6, 1, 2, 0, 0}, {6, 1, 0, 0, 0}, {6, 1, 0, 0, 0}};
